@@ -201,3 +201,7 @@ func Symbolic() bool { return false }
 // Ghost names a derived condition so that known-finding predicates
 // (/verif/known_findings.json) can refer to it. No effect natively.
 func Ghost(name string, cond bool) {}
+
+// OpaqueBytes returns a zero-filled slice of n bytes. Under the engine n may be
+// symbolic: the result then supports len() only.
+func OpaqueBytes(n int) []byte { return make([]byte, n) }
